@@ -608,6 +608,8 @@ def sx(e, lets=None, depth=40):
     if k == "If":
         return ("if", sx(e["cond"], lets, depth - 1), sx(e["then"], lets, depth - 1),
                 sx(e["else"], lets, depth - 1) if "else" in e else None)
+    if k == "Repeat":
+        return ("repeat", sx(e["value"], lets, depth - 1), e.get("n"))
     if k == "Return":
         return ("return", sx(e["value"], lets, depth - 1) if "value" in e else None)
     if k == "Match":
